@@ -543,6 +543,25 @@ def probes() -> List[Tuple[str, Dict[str, Any]]]:
             if n["hostname"] == "a":
                 n["start_up_duration"] = 0
         out.append((f"probe/defaults_block_{where}_level_with_services", c))
+    # the block with every duration at its lower end (0 is a value, not "not stated")
+    for where in ("top", "simulation"):
+        c = base()
+        blk = {"node_start_up_duration": 0, "node_shut_down_duration": 0, "node_scan_duration": 0, "service_fix_duration": 0,
+               "service_restart_duration": 0}
+        if where == "top":
+            c["defaults"] = blk
+        else:
+            c["simulation"]["defaults"] = blk
+        for n in c["simulation"]["network"]["nodes"]:
+            if n["hostname"] == "b":
+                n["services"] = [{"type": "dns-server"}, {"type": "ftp-server"}]
+        out.append((f"probe/defaults_block_{where}_level_all_zero", c))
+    c = base()
+    c["defaults"] = {"service_restart_duration": 3}
+    for n in c["simulation"]["network"]["nodes"]:
+        if n["hostname"] == "b":
+            n["services"] = [{"type": "dns-server"}]
+    out.append(("probe/defaults_block_service_restart_duration", c))
     # link bandwidths that are not whole numbers of Mbps
     c = scenarios.switched(4)
     for l, bw in zip(c["simulation"]["network"]["links"], (0.5, 2.5, 0.001, 1000.25)):
